@@ -13,7 +13,7 @@ RULE = ("counts 0..2^14 and powers of two +-1; signed likewise; milliseconds: ev
         "172,799,999 values (thorough, exhaustive); offsets every 7 s; (previous, value) transition pairs covering markers, whole-hour deltas in/out of "
         "[2^7,2^21), whole minutes since 1800 in/out of (2^21,2^31], raw ticks; strings with/without pool; dictionaries; generated yearly rules, recurrences, "
         "alternating maps, precalculated and fixed zones; all 724 rule-based zones of the two real files re-encoded; distinct key = (primitive, encoding branch)")
-ASSUMPTIONS = ["documented compact encodings as implemented by the independent reader (Appendix A.1)", "the two real files were produced by the reference Noda Time compiler"]
+ASSUMPTIONS = ["documented compact encodings as implemented by the independent reader (Appendix A.1)", "the two real files were produced by the reference Noda Time compiler", "a recurrence whose finite from_year is <= 0 is, as documented in _ZoneRecurrence._write (and upstream), stored as starting at the beginning of time; the lossless domain is from_year in {Int32.MinValue} U [1, 9999]"]
 MIN_NT = {"quick": 40, "thorough": 40}
 REQUIRED = {"any": ["counts", "millis", "offsets", "transitions", "strings", "composites", "zones_reencoded"]}
 EXHAUSTIVE = {"thorough": True}
@@ -300,7 +300,14 @@ def run_composites(ctx):
         p, data = rt(lambda w, x: x._write(w), lambda r: _ZoneYearOffset.read(r), yo)
         ctx.ev(); ctx.counters["composites"] += 1; ctx.key(("yearoffset", len(data)))
         if p: ctx.V(f"C14:year-offset:{p[0]}", f"_ZoneYearOffset {yo!r}: {p}", {"kind": "yearoffset", "repr": repr(yo)}, p)
-        rec = _ZoneRecurrence(rng.choice(pool), Offset.from_seconds(rng.choice([0, 3600, 1800, 7200, -3600])), yo, rng.choice([-(2**31), 1900, 2007]), rng.choice([2**31 - 1, 2037, 1999 + 50]))
+        fy = rng.choice([-(2**31), 1900, 2007, 1, 9999, 2, rng.randint(1800, 2100)])   # finite from_year <= 0 is documented to be stored as "start of time": outside the lossless domain
+        ty = rng.choice([2**31 - 1, 2037, 1999 + 50, 9999, 9998, max(fy, rng.randint(1800, 9999))])
+        if ty < fy: ty = 2**31 - 1
+        try:
+            _ZoneRecurrence("X", Offset.zero, yo, fy, ty)
+        except (ValueError, OverflowError) as e:      # the constructor refuses it (year domain; rule unanswerable at the very end of the range): nothing to write
+            ctx.exc(e); fy, ty = 1900, 2037
+        rec = _ZoneRecurrence(rng.choice(pool), Offset.from_seconds(rng.choice([0, 3600, 1800, 7200, -3600])), yo, fy, ty)
         for pl in (None, pool):
             p, data = rt(lambda w, x: x._write(w), lambda r: _ZoneRecurrence.read(r), rec, pool=pl)
             ctx.ev(); ctx.counters["composites"] += 1
